@@ -157,7 +157,7 @@ def _loop_key(body, map_name, what):
     m = re.search(r"for\s*\((\w+)\s*,\s*\w+\)\s*in\s*(?:&\s*self\.%s\b|self\.%s\.iter\(\))" % (map_name, map_name), body)
     if m:
         return m.group(1)
-    if re.search(r"for\s+\w+\s+in\s+self\.%s\.values\(\)" % map_name, body):
+    if re.search(r"(?:for\s+\w+\s+in\s+|=\s*)self\.%s\.values\(\)" % map_name, body):
         return ""
     raise ValueError("%s: expected exactly one match, found 0" % what)
 
@@ -286,7 +286,8 @@ def lint_consts(repo):
 
     # ---- unused_var_analyzer.rs ---------------------------------------------------------------------
     unu = S["unused"]
-    cu = extract.fn_body(unu, "check_unused_vars")
+    # a diagnostic may be built by a private constructor helper: one level of helpers is inlined (arguments substituted)
+    cu = extract.inline_helpers(unu, extract.fn_body(unu, "check_unused_vars"))
     pre, post, arg = _fmt(cu, "unused message")
     d("unusedMsgPre", "String", lean_str(pre))
     d("unusedMsgPost", "String", lean_str(post))
@@ -296,7 +297,7 @@ def lint_consts(repo):
     d("tagsUnused", "Nat", str(len(re.findall(r"DiagnosticTag::\w+", cu))))
     if not re.search(r"val\.use_count\s*==\s*0", cu):
         raise ValueError("unused: report condition is no longer `use_count == 0`")
-    nl = extract.fn_body(unu, "notify_local_var_node")
+    nl = extract.inline_helpers(unu, extract.fn_body(unu, "notify_local_var_node"))
     d("dupMsg", "String", lean_str(_one(r'"([^"]*)"\.to_string\(\)', nl.replace('"gold".to_string()', ""), "duplicate-declaration message")))
     d("sevDup", "String", lean_str(_sev(nl, "duplicate severity")))
     d("tagsDup", "Nat", str(len(re.findall(r"DiagnosticTag::\w+", nl))))
